@@ -52,7 +52,8 @@ Definition RInv (s : rstate) (al : list ah) : Prop :=
   Forall2 (fun hd a => Inv (rs_size s) (hd_buf hd) a) (rs_handles s) al.
 
 Lemma Forall2_upd_nth {A B} (R : A -> B -> Prop) f g n : forall l1 l2,
-  Forall2 R l1 l2 -> (forall x y, R x y -> R (f x) (g y)) ->
+  Forall2 R l1 l2 ->
+  (forall x y, nth_error l1 n = Some x -> nth_error l2 n = Some y -> R x y -> R (f x) (g y)) ->
   Forall2 R (upd_nth n f l1) (upd_nth n g l2).
 Proof.
   induction n as [|n IH]; intros l1 l2 H Hfg; destruct H; simpl; constructor; auto.
@@ -86,14 +87,86 @@ Proof.
     pose proof (stored_seq s hd h pay) as Hseq. unfold stored in *.
     destruct (if rs_copy s then _ else _) as [res sq]. simpl in *.
     destruct res as [p|c]; simpl; (split; [exact HS|]); auto.
-    apply Forall2_upd_nth; auto. intros x y Hxy. simpl.
-    assert (Ex : hd_buf x = hd_buf x) by reflexivity.
-    (* the handle updated is the one looked up *)
-    admit.
-  - split; auto. destruct (amap_find ssrc (rs_streams s)); [destruct (nth_error _ _)|]; simpl; auto.
+    apply Forall2_upd_nth; auto. intros x y Hx Hy Hxy. rewrite Eh in Hx. inversion Hx; subst x. simpl.
+    apply Inv_add; auto. rewrite (Hseq p eq_refl). exact Hok.
+  - destruct (amap_find ssrc (rs_streams s)); [destruct (nth_error _ _)|]; simpl; split; auto.
   - destruct (amap_find ssrc (rs_streams s)) as [hid|]; simpl; (split; [exact HS|]); auto.
-    apply Forall2_upd_nth; auto. intros x y Hxy. simpl. eapply Inv_clear; eauto.
+    apply Forall2_upd_nth; auto. intros x y _ _ Hxy. simpl. eapply Inv_clear; eauto.
   - split; [exact HS|]. simpl. revert HF. generalize (rs_handles s) al.
     induction (rs_streams s) as [|kv m IH]; intros l1 l2 HF; simpl; auto.
-    apply IH. apply Forall2_upd_nth; auto. intros x y Hxy. simpl. eapply Inv_clear; eauto.
-Abort.
+    apply IH. apply Forall2_upd_nth; auto. intros x y _ _ Hxy. simpl. eapply Inv_clear; eauto.
+Qed.
+
+Lemma rfold_RInv ops : forall s al, RInv s al -> Forall op_ok ops ->
+  RInv (fst (rfold s al ops)) (snd (rfold s al ops)).
+Proof.
+  induction ops as [|o ops IH]; intros s al HI Hok; simpl; auto.
+  inversion Hok; subst. apply IH; auto. apply rstep_RInv; auto.
+Qed.
+
+Lemma RInv_init size copy start : valid_size size = true -> RInv (rinit size copy start) [].
+Proof. intros H. split; simpl; [apply valid_size_In; auto|constructor]. Qed.
+
+Definition pairs_ok (pairs : list (Z * Z)) : Prop := Forall (fun p => 0 <= fst p < 65536) pairs.
+
+Lemma nack_seqs_range pairs seq : pairs_ok pairs -> In seq (nack_seqs pairs) -> 0 <= seq < 65536.
+Proof.
+  unfold nack_seqs. intros Hp Hin. apply in_flat_map in Hin as [[pid blp] [Hpin Hin]].
+  unfold pairs_ok in Hp. rewrite Forall_forall in Hp. specialize (Hp _ Hpin). simpl in *.
+  destruct Hin as [<-|Hin]; [exact Hp|]. apply in_map_iff in Hin as [i [<- _]]. apply add16_range.
+Qed.
+
+(* what a NACK must produce, in the vocabulary of the specification *)
+Definition nack_answer (size : Z) (wid : Z) (a : ah) (seqs : list Z) : list emit :=
+  flat_map (fun seq => match designated size a seq with
+                       | Some p => [(wid, rp_hdr p, rp_pay p)]
+                       | None => [] end) seqs.
+
+Lemma flat_map_ext_in {A B} (f g : A -> list B) l : (forall x, In x l -> f x = g x) -> flat_map f l = flat_map g l.
+Proof.
+  induction l as [|x l IH]; intros H; simpl; auto.
+  rewrite (H x) by (left; reflexivity). f_equal. apply IH. intros y Hy. apply H. right; exact Hy.
+Qed.
+
+Theorem nack_response s al ssrc pairs : RInv s al -> pairs_ok pairs ->
+  rstep s (ONack ssrc pairs) =
+  (s, (0, match amap_find ssrc (rs_streams s) with
+          | None => []                                   (* not bound: nothing *)
+          | Some hid =>
+              match nth_error (rs_handles s) hid, nth_error al hid with
+              | Some hd, Some a => nack_answer (rs_size s) (hd_wid hd) a (nack_seqs pairs)
+              | _, _ => []
+              end
+          end)).
+Proof.
+  intros [HS HF] Hp. simpl. destruct (amap_find ssrc (rs_streams s)) as [hid|]; [|reflexivity].
+  destruct (nth_error (rs_handles s) hid) as [hd|] eqn:Eh; [|reflexivity].
+  destruct (Forall2_nth _ _ _ _ _ HF Eh) as (a & Ea & HI). rewrite Ea.
+  unfold resend, nack_answer. f_equal. f_equal. apply flat_map_ext_in. intros seq Hin.
+  rewrite (Inv_get (rs_size s) (hd_buf hd) a seq HS (nack_seqs_range pairs seq Hp Hin) HI). reflexivity.
+Qed.
+
+(* every state reachable through the public API satisfies the relation *)
+Theorem reachable_RInv size copy start ops : valid_size size = true -> Forall op_ok ops ->
+  RInv (fst (rfold (rinit size copy start) [] ops)) (snd (rfold (rinit size copy start) [] ops)).
+Proof. intros. apply rfold_RInv; auto. apply RInv_init; auto. Qed.
+
+(* the state the model reaches is the one rfold reaches *)
+Lemma rrun_rfold ops : forall s al, rrun s ops = rrun s ops /\
+  fst (rfold s al ops) = fold_left (fun st o => fst (rstep st o)) ops s.
+Proof.
+  induction ops as [|o ops IH]; intros s al; simpl; auto. split; auto. apply IH.
+Qed.
+
+(* one write per request at most, in request order: the answer is a
+   concatenation over the requested numbers of lists of length <= 1 *)
+Lemma nack_answer_one_per_request size wid a seqs :
+  nack_answer size wid a seqs =
+  concat (map (fun seq => match designated size a seq with
+                          | Some p => [(wid, rp_hdr p, rp_pay p)] | None => [] end) seqs) /\
+  (length (nack_answer size wid a seqs) <= length seqs)%nat.
+Proof.
+  split; [unfold nack_answer; apply flat_map_concat_map|].
+  unfold nack_answer. induction seqs as [|x l IH]; simpl; auto.
+  rewrite app_length. destruct (designated size a x); simpl; lia.
+Qed.
